@@ -20,5 +20,5 @@ Deliver, inside the worktree:
  1. the change itself applied to the working tree (leave it uncommitted), and `patch.diff` at the worktree root produced by `git diff > patch.diff` (source files only);
  2. `demo.py` at the worktree root: a small self-contained program that exits 0 on the ORIGINAL code and exits 1 (printing what went wrong) on the CHANGED code - it must demonstrate a violation of the property as stated above (not merely "output differs from before"), using only the public API;
  3. run the existing tests that cover the files you touched (e.g. `cd {wt} && PYTHONPATH={wt} /venv/bin/python -m pytest -q -p no:cacheprovider <test files or dirs>`) and make sure they pass WITH your change; the full suite takes a long time, so run the relevant directories plus `jumanji/wrappers_test.py jumanji/specs_test.py jumanji/registration_test.py jumanji/tree_utils_test.py` where relevant, and tell me exactly what you ran;
- 4. verify demo.py yourself both ways (`git stash` / `git stash pop`, or `git apply -R patch.diff` / `git apply patch.diff`).
+ 4. verify demo.py yourself both ways (`git apply -R patch.diff` / `git apply patch.diff`; do NOT use `git stash`: the stash is shared between worktrees of other people working in parallel).
 Final answer (short): what the change is, why it breaks the property, what exactly it needs in order to manifest, which tests you ran with what result, and the demo output with and without the change.""")
